@@ -37,9 +37,62 @@ def edge_facts(fn, ev):
     return out
 
 
+STATE_READERS = ("len", "is_empty", "last", "first", "get", "position", "get_field", "capacity", "contains_key",
+                 "num_fields", "contains", "is_some", "is_none", "peek", "remaining")
+
+
+def mutated_bases(fn, ev, b):
+    """Terms of the places that block b may mutate in place (through &mut arguments or field assignments)."""
+    out = []
+    bl = fn.blocks[b]
+    for i, st in enumerate(bl.stmts):
+        if st["k"] == "assign" and st["dst"].get("p"):
+            out.append(ev.place(st["dst"], (b, i)))
+    t = bl.term
+    if t["k"] == "call":
+        for a, ty in zip(t["args"], t.get("arg_tys", [])):
+            if ty.startswith("&mut"):
+                out.append(ev.op(a, (b, "term")))
+    return [m for m in out if isinstance(m, tuple) and m and m[0] not in ("int", "top")]
+
+
+def reads_state_of(fact, bases):
+    """Does the fact's term read (unsnapshotted) state of one of the mutated places?  Call terms and site-tagged
+    lengths are value snapshots: the walk does not descend into them."""
+    stack = [fact[1]]
+    while stack:
+        s = stack.pop()
+        if not (isinstance(s, tuple) and s):
+            continue
+        if not isinstance(s[0], str):
+            stack.extend(x for x in s if isinstance(x, tuple))
+            continue
+        if s[0] == "call":
+            continue
+        if s[0] == "len" and len(s) == 3:
+            continue
+        if s[0] in ("len", "index", "idx", "field"):
+            for m in bases:
+                if s == m or values.contains(s, lambda x, m=m: x == m):
+                    return True
+        stack.extend(x for x in s[1:] if isinstance(x, tuple))
+    return False
+
+
 def must_facts(fn, ev, live=None):
-    """block -> frozenset of facts that hold on entry to the block along every normal path from the function entry."""
+    """block -> frozenset of facts that hold on entry to the block along every normal path from the function entry.
+    Facts that read the state of a place are killed by blocks that may mutate that place."""
     ef = edge_facts(fn, ev)
+    kills = {}
+
+    def out_of(p, facts):
+        if p not in kills:
+            kills[p] = mutated_bases(fn, ev, p)
+        ms = kills[p]
+        if not ms or not facts:
+            return facts
+        return frozenset(f for f in facts if not reads_state_of(f, ms))
+
     IN = {0: frozenset()}
     order = fn.rpo()
     changed = True
@@ -57,7 +110,7 @@ def must_facts(fn, ev, live=None):
                 if live is not None and p not in live:
                     continue
                 # a switch folded under the current assumptions only takes its live edge
-                s = IN[p] | frozenset(ef.get((p, b), ()))
+                s = out_of(p, IN[p]) | frozenset(ef.get((p, b), ()))
                 acc = s if acc is None else (acc & s)
             if acc is None:
                 continue
@@ -128,3 +181,87 @@ def rel_facts_at(IN, b):
     for f in facts_at(IN, b):
         out.extend(relational(f))
     return out
+
+
+def variant_of_rvalue(rv):
+    """Variant name when an rvalue is an enum aggregate construction, else None."""
+    if rv["k"] == "agg" and rv.get("ak") == "adt" and "vname" in rv:
+        return rv["vname"]
+    return None
+
+
+def correlated_facts(fn, ev, IN, b, ef=None):
+    """Value-correlation refinement: when a branch fact at block b says `discriminant(L) == k` for a local L with several
+    reaching definitions of which only one can have variant k (the others construct a different variant), every path
+    reaching b came through that definition, so the facts that held there hold at b as well (state-reading facts
+    excluded)."""
+    out = set()
+    ef = ef if ef is not None else edge_facts(fn, ev)
+    for bl in fn.blocks:
+        s = bl.idx
+        t = bl.term
+        if t["k"] != "switch" or not fn.dominates(s, b) or s == b:
+            continue
+        # operand defined by `discriminant(place)` in the same block
+        pl = t["op"].get("cp") or t["op"].get("mv")
+        if pl is None or pl.get("p"):
+            continue
+        dl = None
+        variants = None
+        for st in bl.stmts:
+            if st["k"] == "assign" and st["dst"]["l"] == pl["l"] and st["rv"]["k"] == "discr" and not st["rv"]["place"].get("p"):
+                dl = st["rv"]["place"]["l"]
+                variants = {v: n for v, n in st["rv"].get("variants", [])}
+        if dl is None or not variants:
+            continue
+        # which edge of this switch dominates b?
+        for val, tgt in t["cases"]:
+            if tgt == t["otherwise"]:
+                continue
+            if not (fn.dominates(tgt, b) and len([p for p in fn.pred(tgt) if not fn.dominates(tgt, p)]) == 1):
+                continue
+            vname = variants.get(val)
+            if vname is None:
+                continue
+            defs, entry = ev.reaching(dl, (s, "term"))
+            if entry or len(defs) < 2:
+                continue
+            cands = []
+            for (db, di, kind) in defs:
+                if di == "term":
+                    cands.append((db, di))
+                    continue
+                vn = variant_of_rvalue(fn.blocks[db].stmts[di]["rv"])
+                if vn is None or vn == vname:
+                    cands.append((db, di))
+            if len(cands) == 1:
+                db = cands[0][0]
+                for f in IN.get(db, frozenset()):
+                    if not reads_state_of(f, [("any",)]) and not _reads_any_state(f):
+                        out.add(f)
+    return out
+
+
+def _reads_any_state(fact):
+    stack = [fact[1]]
+    while stack:
+        s = stack.pop()
+        if not (isinstance(s, tuple) and s):
+            continue
+        if not isinstance(s[0], str):
+            stack.extend(x for x in s if isinstance(x, tuple))
+            continue
+        if s[0] == "call" or (s[0] == "len" and len(s) == 3):
+            continue
+        if s[0] in ("index", "idx") or (s[0] == "field" and not _stable_root(s)) or (s[0] == "len" and len(s) == 2 and not _stable_root(s[1])):
+            return True
+        stack.extend(x for x in s[1:] if isinstance(x, tuple))
+    return False
+
+
+def _stable_root(t):
+    # conservative: only plain parameters that are not mutable references are certainly stable; callers that need
+    # precision use site-tagged snapshots
+    while isinstance(t, tuple) and t and t[0] in ("field", "vfield", "variant"):
+        t = t[1]
+    return isinstance(t, tuple) and t and t[0] == "param"
